@@ -126,6 +126,19 @@ func (da *doneAnalysis) always(fn *ssa.Function) bool {
 	}
 	found, _ := core.PathAvoiding(fn, nil, core.IsReturn, da.isDischarge, da.cuts(fn))
 	if found {
+		// confirmed on the interprocedural walk: a Done made in a deferred function literal or inside
+		// a helper on some of its paths
+		cut := map[core.Edge]bool{}
+		for f := range da.c.regionOf(fn) {
+			for e := range da.cuts(f) {
+				cut[e] = true
+			}
+		}
+		if f2, _, over := core.PathAvoidingDeep(fn, nil, nil, core.IsReturn, da.isDischarge, cut); !over {
+			found = f2
+		}
+	}
+	if found {
 		da.memo[fn] = 3
 		return false
 	}
